@@ -76,7 +76,7 @@ class C04(FragHarness, WrapHarness):
                     'wset': [0, 1, 2, (1 << 53) - 1, (1 << 53) + 1, 1 << 63, U64MAX]})
         # sentence templates (paragraph-sized texts with a few symbolic characters), all widths
         tb = {'feat': 'full', 'algo': 'F', 'sep': 'A', 'split': 'H', 'bw': True, 'ind': 'both', 'imax': 1}
-        out += std_tmpl_spaces(tb, q, entry='wrap')
+        out += std_tmpl_spaces(tb, q, cind=True, entry='wrap')
         out += atmpl_spaces(dict(tb, ind='none') if q else tb, ['short', 'wide'] if q else ['short', 'wide', 'sentence', 'ansi', 'paras'],
                             ADV[:8] if q else ADV, entry='wrap')
         for e in ('fill_inplace', 'unfill', 'dedent', 'indent'):
